@@ -153,6 +153,13 @@ def expected(op, step, plain=False):
     if op == "lift" and around:
         return ("shape", "payload", "hst", "gapFits", "gapClean")      # ranges come from block_range: both ends at child boundaries
     if op in ("set_node_markup", "set_block_type") and around:
+        sl = step.slice
+        if not (step.structure and step.insert == 1 and sl.open_start == 0 and sl.open_end == 0 and sl.content.child_count == 1
+                and step.gap_from == step.from_ + 1 and step.gap_to == step.to - 1):
+            # not the retype step the theorems are about: `set_node_markup` on a *leaf* goes through `replace_with`, and the
+            # Fitter may answer with a replace-around step of its own (open slice, inline content moved) — measured like
+            # every step of the replace family
+            return ()
         new = step.slice.content.first_child
         if new is not None and not new.is_leaf:
             return ("shape", "payload", "hst", "gapFits", "gapClean")
